@@ -14,15 +14,33 @@ trap 'git -C /repo worktree remove --force "$WT" >/dev/null 2>&1' EXIT
 for id in $IDS; do
   P="$HERE/seeded/$id/patch.diff"
   [ -f "$P" ] || continue
-  git -C "$WT" checkout -q -- . ; git -C "$WT" clean -fdq
+  git -C "$WT" reset -q --hard HEAD; git -C "$WT" clean -fdq
   if ! git -C "$WT" apply "$P" 2>/dev/null; then
-    if ! git -C "$WT" apply --3way "$P" >/dev/null 2>&1; then echo "$id patch-does-not-apply"; continue; fi
+    # the code around the change moved since it was written: try a three-way merge, give up on a conflict
+    if ! git -C "$WT" apply --3way "$P" >/dev/null 2>&1 || [ -n "$(git -C "$WT" diff --name-only --diff-filter=U)" ]; then
+      git -C "$WT" reset -q --hard HEAD
+      echo "$id patch-does-not-apply-to-HEAD"; continue
+    fi
   fi
-  C=${id:0:3}
+  if ! (cd "$WT" && go build ./... >/dev/null 2>&1); then echo "$id does-not-build-on-HEAD"; continue; fi
+  # the checks named in the record of the change (caught_by), the property's own check first
+  CS=$(python3 - "$HERE/seeded/$id/meta.json" "${id:0:3}" <<'PY'
+import json,re,sys
+m=json.load(open(sys.argv[1])); own=sys.argv[2]
+cs=[own]+[c for c in re.findall(r'C\d\d', m.get('caught_by','')) if c!=own]
+seen=[]
+for c in cs:
+    if c not in seen: seen.append(c)
+print(' '.join(seen))
+PY
+)
   for s in ${SEEDS//,/ }; do
-    out=$(cd "$HERE" && VERIF_REPO="$WT" VERIF_SEED=$s ./check $C --tier quick 2>&1 | grep "^SUMMARY" | tail -1)
-    v=$(echo "$out" | sed -n 's/.*violations=\([0-9]*\).*/\1/p')
-    i=$(echo "$out" | sed -n 's/.*inconclusive=\([0-9]*\).*/\1/p')
-    echo "$id seed=$s violations=${v:-?} inconclusive=${i:-?}"
+    line="$id seed=$s"
+    for C in $CS; do
+      out=$(cd "$HERE" && VERIF_REPO="$WT" VERIF_SEED=$s ./check $C --tier quick 2>&1 | grep "^SUMMARY" | tail -1)
+      v=$(echo "$out" | sed -n 's/.*violations=\([0-9]*\).*/\1/p')
+      line="$line $C=${v:-?}"
+    done
+    echo "$line"
   done
 done
